@@ -270,7 +270,7 @@ func x01RandQual(rng *rand.Rand, n int) string {
 	return string(b)
 }
 
-func x01JoinScenario(rng *rand.Rand, big bool) (by [][]string, flags []int, main, part []x01Rec, partCSV bool) {
+func x01JoinScenario(rng *rand.Rand, seed int64, big bool) (by [][]string, flags []int, main, part []x01Rec, partCSV bool) {
 	nmain := 20 + rng.Intn(280)
 	npart := rng.Intn(120)
 	if big {
@@ -301,7 +301,7 @@ func x01JoinScenario(rng *rand.Rand, big bool) (by [][]string, flags []int, main
 		}
 		return "s:r" + strconv.Itoa(v)
 	}
-	switch rng.Intn(7) {
+	switch int(uint64(seed) % 7) {
 	case 0:
 		by = [][]string{}
 	case 1:
@@ -403,7 +403,7 @@ func x01RecordJoin(env *Env, bindir, dir string) {
 		seed := jobs[i]
 		rng := rand.New(rand.NewSource(seed))
 		big := (i < nbig && env.opt("jobseed", "") == "") || env.opt("jobbig", "") == "1"
-		by, flags, main, part, _ := x01JoinScenario(rng, big)
+		by, flags, main, part, _ := x01JoinScenario(rng, seed, big)
 		ev := x01JoinEvent{Sub: "join", Seed: seed, By: by, Flags: flags, Main: main, Part: part, Out: []x01Rec{}, Status: "ok"}
 		if by == nil {
 			ev.By = [][]string{}
@@ -411,7 +411,7 @@ func x01RecordJoin(env *Env, bindir, dir string) {
 		if ev.Part == nil {
 			ev.Part = []x01Rec{}
 		}
-		useCmd := bindir != "" && (len(by) == 0 || big || rng.Intn(2) == 0)
+		useCmd := bindir != "" && (len(by) == 0 || big || (seed/7)%2 == 0)
 		if env.opt("joblevel", "") != "" {
 			useCmd = env.opt("joblevel", "") == "cmd"
 		}
